@@ -12,6 +12,8 @@
  *   waitfd:FD     block until FD is readable/EOF (harness-controlled exit instant)
  *   closefd:FD
  *   tree:SPEC     build a process tree, see below; the root continues with the next op
+ *   envexit:NAME:A:B  _exit(A) if the environment variable NAME is set, else _exit(B)
+ *   mkdirs:DIR:N  call mkdir(DIR/x<i>) N times (results ignored)
  *   fds:PATH      write the list of open descriptors (fd dev ino cloexec) to PATH
  *   fdsfd:FD      the same, written to descriptor FD (the list includes FD itself)
  * tree SPEC: node* ; node := flag* '(' node* ')'
@@ -186,6 +188,25 @@ int main(int argc, char **argv) {
       while (read(fd, &c, 1) == -1 && errno == EINTR) {}
     } else if (IS("closefd")) close(atoi(arg));
     else if (IS("tree")) parse_nodes(arg, 0);
+    else if (IS("envexit")) {
+      char *a = strchr(arg, ':');
+      if (!a) continue;
+      *a++ = 0;
+      char *b = strchr(a, ':');
+      if (!b) continue;
+      *b++ = 0;
+      _exit(getenv(arg) ? atoi(a) : atoi(b));
+    } else if (IS("mkdirs")) {
+      char *n = strchr(arg, ':');
+      if (!n) continue;
+      *n++ = 0;
+      long cnt = atol(n);
+      char path[512];
+      for (long k = 0; k < cnt; k++) {
+        snprintf(path, sizeof path, "%s/x%ld", arg, k);
+        mkdir(path, 0755);
+      }
+    }
     else if (IS("fds")) dump_fds(arg);
     else if (IS("fdsfd")) dump_fds_to(atoi(arg), -1);
   }
